@@ -3,6 +3,7 @@
 //!   `run(ops) -> Vec<String>`                      (impl trace; one line per op line)
 use crate::util::{Rng, Stats};
 
+pub mod mixer;
 pub mod param;
 pub mod units;
 
@@ -15,6 +16,9 @@ pub fn gen(suite: &str, rng: &mut Rng, n: usize, thorough: bool, stats: &mut Sta
 	match suite {
 		"units" => units::gen(rng, n, thorough, stats),
 		"param" => param::gen(rng, n, thorough, stats),
+		"mixer" => mixer::gen(rng, n, thorough, stats, mixer::Mode::Flow),
+		"mixtrk" => mixer::gen(rng, n, thorough, stats, mixer::Mode::Tracks),
+		"mixpart" => mixer::gen(rng, n, thorough, stats, mixer::Mode::Partition),
 		_ => panic!("unknown suite {}", suite),
 	}
 }
@@ -23,6 +27,9 @@ pub fn run(suite: &str, ops: &[String]) -> Vec<String> {
 	match suite {
 		"units" => units::run(ops),
 		"param" => param::run(ops),
+		"mixer" => mixer::run(ops, mixer::Mode::Flow),
+		"mixtrk" => mixer::run(ops, mixer::Mode::Tracks),
+		"mixpart" => mixer::run(ops, mixer::Mode::Partition),
 		_ => panic!("unknown suite {}", suite),
 	}
 }
